@@ -211,6 +211,10 @@ def r3_coherence(rep, ctx):
                 res_ = Resolver(m, fn)
                 clear_nodes = {cfg_.node_of(c_) for c_ in own_nodes(fn.node) if isinstance(c_, ast.Call) and isinstance(c_.func, ast.Attribute) and c_.func.attr == "clear"
                                and res_.term(c_.func.value) == ("field", memo)}
+                if not clear_nodes and memo == "_category_unit_valid":
+                    # a selective invalidation (`del memo[key]` for the keys passing a filter) instead of clear(): the
+                    # filter must select by the component of the memo key that holds what this method registers
+                    _selective_invalidation(rep, m, fn, res_, memo, key)
                 if clear_nodes:
                     for fld in fields:
                         for (wf, wnode, depth, kind) in eff.write_sites.get(tuple(fld), []):
@@ -233,6 +237,68 @@ def r3_coherence(rep, ctx):
     ce = m.func("Quantity.CreateEmpty")
     rd = {(r[0], r[1]) for r in eff.direct_r.get(ce.qual, ()) if is_registry_atom(r)}
     rep.check(not rd, "C15.R3", "Quantity._EMPTY_QUANTITY", "the empty-quantity memo is filled without reading registry state", "the empty-quantity memo depends on %s" % sorted(rd), fn=ce)
+
+
+def _selective_invalidation(rep, m, fn, res, memo, key):
+    """`for k in [k for k in memo if k[i] == X]: del memo[k]` (or the same with pop / a loop with an if): component i
+    of the memo key must be the one that is built from the same datum as X - the memo is keyed (category, unit), so
+    AddUnit may select by `k[1] == unit` and AddCategory by `k[0] == category`.  A filter on another component, or on
+    another datum, leaves stale verdicts: violation.  A filter on the right component is not decided here (whether
+    only those verdicts can change is arithmetic on the registry's content): analysis error."""
+    from ..srcmodel import own_nodes
+
+    # layout of the memo key, from the store in CheckCategoryUnit: positions -> parameter names
+    ccu = m.method("UnitDatabase", "CheckCategoryUnit")
+    from ..terms import Resolver
+    cres = Resolver(m, ccu)
+    layout = None
+    for st in own_nodes(ccu.node):
+        if isinstance(st, ast.Assign):
+            for t_ in st.targets:
+                if isinstance(t_, ast.Subscript) and cres.term(t_.value) == ("field", memo):
+                    kt = cres.term(t_.slice)
+                    if kt[0] == "tuple" and all(c_[0] == "param" for c_ in kt[1]):
+                        layout = [c_[2] for c_ in kt[1]]
+    if layout is None:
+        raise AnalysisError("CheckCategoryUnit: the key under which the verdict memo is stored was not recognised")
+    filters = []
+    for x in own_nodes(fn.node):
+        if isinstance(x, ast.Compare) and len(x.ops) == 1 and isinstance(x.ops[0], ast.Eq):
+            for l_, r_ in ((x.left, x.comparators[0]), (x.comparators[0], x.left)):
+                if isinstance(l_, ast.Subscript) and isinstance(l_.slice, ast.Constant) and isinstance(l_.slice.value, int) and isinstance(l_.value, ast.Name):
+                    # is the subscripted name an element of the memo (comprehension / loop over it)?
+                    p_ = getattr(x, "_parent", None)
+                    over_memo = False
+                    while p_ is not None and p_ is not fn.node:
+                        gens = getattr(p_, "generators", None) or []
+                        for g_ in gens:
+                            if any(isinstance(y, ast.Name) and y.id == l_.value.id for y in ast.walk(g_.target)) and any(s_ == ("field", memo) for s_ in _walk(res.term(g_.iter))):
+                                over_memo = True
+                        if isinstance(p_, ast.For) and any(isinstance(y, ast.Name) and y.id == l_.value.id for y in ast.walk(p_.target)) and any(s_ == ("field", memo) for s_ in _walk(res.term(p_.iter))):
+                            over_memo = True
+                        p_ = getattr(p_, "_parent", None)
+                    if over_memo:
+                        filters.append((l_.slice.value, res.term(r_), x))
+    if not filters:
+        raise AnalysisError("%s writes the verdict memo without clear() and without a recognisable selective invalidation" % fn.name)
+    for i, xt, node in filters:
+        comp = layout[i] if -len(layout) <= i < len(layout) else None
+        right = comp is not None and xt[0] == "param" and xt[2] == comp
+        if not right:
+            rep.bad("C15.R3", key + ":selective-invalidation", "%s invalidates only the memo entries whose key component %d (the %s) equals %s: the entries that this registration makes stale are keyed by their %s component, so stale verdicts - a refusal cached before the registration - stay in effect"
+                    % (fn.name, i, comp, show_term(xt), "/".join(p for p in layout if p in fn.params) or "own"), node=node, fn=fn)
+        else:
+            raise AnalysisError("%s invalidates the verdict memo selectively (entries whose %s is the registered one): whether no other cached verdict can change is not decided by this rule" % (fn.name, comp))
+
+
+def _walk(t):
+    from ..terms import walk
+    return walk(t)
+
+
+def show_term(t):
+    from ..terms import show
+    return show(t, 60)
 
 
 KNOWN_WRITERS = {
